@@ -499,6 +499,11 @@ inline int main(int argc, char **argv)
         const double t0 = nowS();
         p.run(opt, target, deadline, r.ctx, r.failure, r.note);
         r.wall = nowS() - t0;
+        {
+            // distinct non-trivial case hashes, so that shards can be united exactly by the runner
+            std::ofstream ds(opt.out + ".distinct", std::ios::binary | std::ios::app);
+            for (const uint64_t h : r.ctx.distinct) ds.write(reinterpret_cast<const char *>(&h), sizeof h);
+        }
         results.push_back(std::move(r));
         writeResults(opt.out, results, nowS() - start); // partial results survive a later crash
     }
